@@ -247,6 +247,9 @@ func solveOne(r *FuncResult, ob *Oblig, cfg solveCfg) {
 		for _, p := range r.Params {
 			ok := true
 			for _, n := range p.Needs {
+				if n == "" || strings.HasPrefix(n, "(") || (n[0] >= '0' && n[0] <= '9') {
+					continue // a literal (e.g. the normalised slice offset 0) needs no declaration
+				}
 				if !strings.Contains(script, "(declare-const "+n+" ") && !strings.Contains(script, "(define-fun "+n+" ") {
 					ok = false
 					break
